@@ -1120,7 +1120,7 @@ def delete_array(da):
     da.check_arraywriteable()
     for fn in da._protectedfiles:
         path = da.path.joinpath(fn)
-        if path.exists():
+        if path.is_file() and not path.is_symlink():
             path.unlink()
     try:
         da._path.rmdir()
